@@ -13,6 +13,7 @@ from typing import Any, Dict, List, Optional, Tuple
 
 from harness.extract import isolation_reset as x_ir
 from harness.extract import isolation_sinkflags as x_sf
+from harness.extract import own_generator_state as x_own
 from harness.extract import sharedstate as x_ss
 from harness.lib import scen
 from harness.lib.core import VERIF, Ctx, Rng, lean_lock, run_driver, shrink_ops
@@ -707,7 +708,14 @@ def run(ctx: Ctx):
         ctx.extract("SharedState", x_ss.emit)
         ctx.extract("IsolationReset", x_ir.emit)
         ctx.extract("IsolationSinkFlags", x_sf.emit)
+        ctx.extract("OwnGeneratorState", x_own.emit)
         ctx.prove(MODULES, exes=[EXE], leanchecker=ctx.thorough)
+    try:
+        own_key = x_own.wrapper_shape()["stateKey"]
+    except Exception as e:
+        own_key = f"<{type(e).__name__}>"
+    ctx.oblige("rig:own-state-key the rig hands generator states over under the key the decorator uses", "correspondence",
+               own_key == iso.OWN_STATE_KEY, f"decorator: {own_key!r}, rig: {iso.OWN_STATE_KEY!r}")
     ctx.cov["rule"] = ("(a) one case = scenario x action map x dirty history (1-3 episodes of generated actions) x later action sequence; every compared "
                        "step (observation, reward, flags, every agent's action/request/response, whole describe_state) is one evaluation. "
                        "(b) one case = scenario pair x random schedule of construct/reset/step/close of B around A's operations; every A-step is "
